@@ -4,6 +4,7 @@ import gens as G
 import pyimpl as P
 from oracle_util import *  # noqa
 from tokutil import *  # noqa
+import h1tok_util as H
 
 ID = "C19"
 LEAN_MODULE = ["SCoda.Props.C19", "SCoda.Props.C19b", "SCoda.Props.Gaps", "SCoda.Props.TokTie"]
@@ -30,8 +31,10 @@ CLAUSES = [
      ["SCoda.TokTie.getInfo_eq", "SCoda.TokTie.detokenise_eq", "SCoda.TokTie.detokenise_step"]),
 ]
 RULE = ("random streams over the vocabulary of sampled configurations (<=60 tokens: bar tokens in partly filled bars, "
-        "signature tokens mid-bar, unfused running values), plus streams produced by tokenise from valid pieces, with and "
-        "without value imputation; non-trivial = stream has a note token after a rest/bar token")
+        "signature tokens mid-bar, unfused running values), plus streams produced by tokenise from valid pieces (the piece is the input: the "
+        "oracle tokenises it, and a token outside the vocabulary is a violation, not a skipped case), with and without value imputation; "
+        "configurations include other resolutions (ppqn 6/12/48/96), custom / unsorted step lists, a step above ppqn, three-digit steps, "
+        "repeated list entries and custom note values; non-trivial = stream has a note token after a rest/bar token")
 ASSUMPTIONS = ["models: SCoda.getInfo and SCoda.detokenise, tied by correspondence on the same streams"]
 COF = {0: 0, 7: 1, 2: 2, 9: 3, 4: 4, 11: 5, 6: 6, 1: -5, 8: -4, 3: -3, 10: -2, 5: -1}
 
@@ -55,9 +58,20 @@ def note_onsets_by_prefix(tk, toks):
 
 def o_info(inp):
     cfg = P.TkCfg(**inp["cfg"])
-    toks = list(inp["toks"])
     tk = cfg.tk()
+    if inp.get("tracks") is not None:
+        # a stream produced by tokenise: the PIECE is the input (audit round 3, O3) and the stream is made here
+        try:
+            toks = tk.tokenise([P.seq_of_rel([tuple(m) for m in t]) for t in inp["tracks"]])
+        except Exception:
+            return [("~skip:input-not-accepted", "")]
+    else:
+        toks = list(inp["toks"])
     if any(t not in tk.dictionary for t in toks):
+        if inp.get("from_tokenise"):
+            # "streams obtained from valid pieces" are streams of vocabulary tokens: tokenise left its own vocabulary (C02's closure,
+            # without which this property says nothing about the stream)
+            return [("closed", f"tokenise emitted tokens outside the vocabulary: {[t for t in toks if t not in tk.dictionary][:4]}")]
         return [("~skip:not-vocabulary", "")]
     fails = []
     if inp.get("earlier"):
@@ -117,6 +131,23 @@ def o_info(inp):
             start = max([e for e in ends if e <= onset] + [0])
             if info["info_time_bar"][i] != onset - start:
                 fails.append(("in-bar", f"token {i}: in-bar time {info['info_time_bar'][i]}, onset {onset} - bar start {start}"))
+        # "the start of its bar" on the detokenised timeline, read a second way (audit round 3, O8): the bar lines induced by the time-signature
+        # EVENTS detokenise returned (default 8/8 before the first) must be the bar ends it returned, so both give every note the same bar start
+        ppqn = cfg.kw["ppqn"] or 24
+        sig_ev = sorted([x for v in detok_view(seqs) for x in v["sigs"]], key=lambda x: x[0])
+        for i, placed in onsets.items():
+            if placed is None:
+                continue
+            onset = placed[1]
+            start = max([e for e in ends if e <= onset] + [0])
+            g = bar_grid(sig_ev, onset + 1, ppqn)
+            if g is None:
+                continue
+            start2 = g[-2] if len(g) >= 2 else 0
+            if start2 != start:
+                fails.append(("in-bar", f"token {i}: the bar of onset {onset} starts at {start} by the bar ends detokenise returned, at {start2} by the "
+                                        f"time signatures it returned {sig_ev}"))
+                break
     return fails
 
 
@@ -124,8 +155,19 @@ def setup(ctx):
     ctx.oracle("info", o_info)
 
 
+# audit round 3: O8 (a signature change after the first bar: the bar lines induced by the returned signature events are the returned bar ends)
+# and O3 (a step above ppqn is a vocabulary token: the stream tokenise makes of this piece is a stream over the vocabulary)
+SIG_EXAMPLE = {"cfg": dict(num_tracks=1), "impute": False, "from_tokenise": True, "tracks": [[
+    G.pm(TIMESIG, 0, None, num=4, den=4), G.pm(ON, 0, None, note=60, vel=64), G.pm(WAIT, 0, 24), G.pm(OFF, 0, None, note=60), G.pm(WAIT, 0, 72),
+    G.pm(TIMESIG, 0, None, num=3, den=4), G.pm(WAIT, 0, 72), G.pm(ON, 0, None, note=62, vel=64), G.pm(WAIT, 0, 24), G.pm(OFF, 0, None, note=62), G.pm(WAIT, 0, 48)]]}
+STEP_EXAMPLE = {"cfg": dict(num_tracks=1, step_sizes=[2, 4, 8, 48], note_values=[24]), "impute": False, "from_tokenise": True, "tracks": [[
+    G.pm(TIMESIG, 0, None, num=4, den=4), G.pm(WAIT, 0, 48), G.pm(ON, 0, None, note=60, vel=64), G.pm(WAIT, 0, 24), G.pm(OFF, 0, None, note=60), G.pm(WAIT, 0, 24)]]}
+
+
 def generate(ctx):
     rng = ctx.rng
+    ctx.check("info", SIG_EXAMPLE)
+    ctx.check("info", STEP_EXAMPLE)
     for i in range(ctx.n(80, 2000)):
         nt = rng.choice([1, 2])
         kw = dict(num_tracks=nt, velocity_bins=rng.choice([1, 2, 4]), running=rng.random() < 0.5, fuse_track=rng.random() < 0.5,
@@ -134,6 +176,11 @@ def generate(ctx):
         if rng.random() < 0.3:
             kw["ppqn"] = rng.choice([12, 48, 96, 6])      # a tokeniser built for another resolution
             ctx.count("ppqn:non-default")
+        if rng.random() < 0.3:
+            # off the default step list: custom / unsorted lists, a step above ppqn, three-digit steps, repeated entries (audit round 3, O3)
+            kw["step_sizes"] = list(rng.choice(H.STEP_MENU[kw.get("ppqn", 24)] + H.DUP_STEPS[:2]))
+            for lab in H.describe_cfg(kw):
+                ctx.count("cfg:" + lab)
         if rng.random() < 0.25:
             kw["pitch_range"] = rng.choice([(120, 127), (0, 8), (123, 127)])      # both ends of the MIDI pitch range
             ctx.count("pitch-range:extreme")
@@ -167,17 +214,23 @@ def generate(ctx):
                     toks.append(rng.choice(["pad", "sta", "sto"]))
             from_tok = False
         else:
-            piece = G.gen_piece(rng, n_tracks=nt, pitch_range=(58, 66))
+            # drawn on the configuration's own grid (resolution, step unit, note values, pitch range)
+            piece = H.gen_piece_p(rng, ppqn=kw.get("ppqn") or 24, steps=kw.get("step_sizes"), values=kw.get("note_values"), n_tracks=nt,
+                                  pitch_range=kw["pitch_range"], max_notes_per_bar=rng.choice([1, 2, 3]), tail_ok=rng.random() < 0.3)
             try:
                 toks = tk.tokenise([P.seq_of_rel(t) for t in piece["tracks"]])
             except Exception:
+                ctx.count("piece-not-accepted")
                 continue
             from_tok = True
         nontriv = any("pit" in t and j > 0 and any(x.startswith(("rst", "bar")) for x in toks[:j]) for j, t in enumerate(toks))
         ctx.case((sorted(kw.items()), toks, impute), nontriv)
         ctx.count("from-tokenise" if from_tok else "random-stream")
-        ctx.check("info", {"cfg": kw, "toks": toks, "impute": impute, "from_tokenise": from_tok})
-        if i % 3 == 0 and len(toks) >= 3:
+        if from_tok:
+            ctx.check("info", {"cfg": kw, "tracks": piece["tracks"], "impute": impute, "from_tokenise": True})
+        else:
+            ctx.check("info", {"cfg": kw, "toks": toks, "impute": impute, "from_tokenise": False})
+        if i % 3 == 0 and len(toks) >= 3 and all(t in tk.dictionary for t in toks):
             # the caller's list object was annotated before with other content and rewritten in place
             vocab_note = [t for t in toks if "pit" in t] or toks
             e1 = list(toks)
